@@ -1,1 +1,853 @@
-fn main() { eprintln!("not built yet"); std::process::exit(2); }
+//! dv-snapxfer: feeds TLC-generated chunk streams (spec/SnapXfer.tla) through a real tokio channel
+//! into the real `DefaultStateMachineHandler::apply_snapshot_stream_from_leader` and records what
+//! the receiver's durable state (state machine, snapshot directory) looks like at every poll
+//! boundary of the receiver future and at the end of every attempt.
+//!
+//! Nothing of the code under test is re-implemented here: the chunk streams come from the real
+//! sender (`create_snapshot` + `load_snapshot_data` of a leader-side handler), the faults are edits of
+//! those chunks dictated by the TLC behaviour, the receiver is the production handler + assembler.
+use std::collections::BTreeMap;
+use std::fmt::Debug;
+use std::future::Future;
+use std::marker::PhantomData;
+use std::path::{Path, PathBuf};
+use std::pin::Pin;
+use std::sync::atomic::{AtomicBool, AtomicU8, AtomicUsize, Ordering};
+use std::sync::{Arc, Mutex};
+use std::task::{Context, Poll};
+use std::time::Duration;
+
+use async_trait::async_trait;
+use bytes::Bytes;
+use d_engine_core::*;
+use d_engine_proto::common::LogId;
+use d_engine_proto::server::storage::snapshot_ack::ChunkStatus;
+use d_engine_proto::server::storage::{SnapshotAck, SnapshotChunk, SnapshotMetadata};
+use d_engine_server::FileStateMachine;
+use d_engine_server::verif_exports::RaftMembership;
+use dv_common::mem::{MemEngine, MemSm};
+use dv_common::net::SimTransport;
+use dv_common::util::{NdjsonWriter, run_paused};
+use futures::StreamExt;
+use serde_json::{Value, json};
+use tokio::sync::mpsc;
+
+type R<T> = std::result::Result<T, Error>;
+
+// ---------------------------------------------------------------------------------------------
+// State machine kinds + probe wrapper
+// ---------------------------------------------------------------------------------------------
+#[async_trait(?Send)]
+trait Kind: Debug + Send + Sync + Sized + 'static {
+    type S: StateMachine + Debug;
+    const NAME: &'static str;
+    async fn open(dir: &Path) -> Arc<Self::S>;
+    /// what a restarted process finds after the old instance died (process-crash semantics)
+    async fn reopen(
+        old: &Arc<Self::S>,
+        dir: &Path,
+    ) -> Arc<Self::S>;
+}
+
+#[derive(Debug)]
+struct MemKind;
+#[async_trait(?Send)]
+impl Kind for MemKind {
+    type S = MemSm;
+    const NAME: &'static str = "mem";
+    async fn open(_dir: &Path) -> Arc<MemSm> {
+        Arc::new(MemSm::new())
+    }
+    async fn reopen(
+        old: &Arc<MemSm>,
+        _dir: &Path,
+    ) -> Arc<MemSm> {
+        Arc::new(old.crash_image())
+    }
+}
+
+#[derive(Debug)]
+struct FileKind;
+#[async_trait(?Send)]
+impl Kind for FileKind {
+    type S = FileStateMachine;
+    const NAME: &'static str = "file";
+    async fn open(dir: &Path) -> Arc<FileStateMachine> {
+        Arc::new(FileStateMachine::new(dir.to_path_buf()).await.expect("open FileStateMachine"))
+    }
+    async fn reopen(
+        _old: &Arc<FileStateMachine>,
+        dir: &Path,
+    ) -> Arc<FileStateMachine> {
+        Self::open(dir).await
+    }
+}
+
+/// 0 = no crash point armed, 1 = at the entry of apply_snapshot_from_file, 2 = right after it
+#[derive(Default)]
+struct ProbeCtl {
+    crash_at: AtomicU8,
+    hit: AtomicBool,
+    apply_calls: AtomicUsize,
+    /// observation callback, run at the entry and at the exit of apply_snapshot_from_file
+    note: Mutex<Option<Arc<dyn Fn() + Send + Sync>>>,
+}
+impl Debug for ProbeCtl {
+    fn fmt(
+        &self,
+        f: &mut std::fmt::Formatter<'_>,
+    ) -> std::fmt::Result {
+        write!(f, "ProbeCtl")
+    }
+}
+impl ProbeCtl {
+    fn note(&self) {
+        let cb = self.note.lock().unwrap().clone();
+        if let Some(cb) = cb {
+            cb();
+        }
+    }
+}
+
+/// Delegating wrapper: the only thing it adds is the crash point around apply_snapshot_from_file.
+#[derive(Debug)]
+struct Probe<S: StateMachine + Debug> {
+    inner: Arc<S>,
+    ctl: Arc<ProbeCtl>,
+}
+
+#[async_trait]
+impl<S: StateMachine + Debug> StateMachine for Probe<S> {
+    async fn start(&self) -> R<()> {
+        self.inner.start().await
+    }
+    fn stop(&self) -> R<()> {
+        self.inner.stop()
+    }
+    fn is_running(&self) -> bool {
+        self.inner.is_running()
+    }
+    fn get(
+        &self,
+        k: &[u8],
+    ) -> R<Option<Bytes>> {
+        self.inner.get(k)
+    }
+    fn entry_term(
+        &self,
+        i: u64,
+    ) -> Option<u64> {
+        self.inner.entry_term(i)
+    }
+    async fn apply_chunk(
+        &self,
+        chunk: &[ApplyEntry],
+    ) -> R<Vec<ApplyResult>> {
+        self.inner.apply_chunk(chunk).await
+    }
+    fn len(&self) -> usize {
+        self.inner.len()
+    }
+    fn update_last_applied(
+        &self,
+        l: LogId,
+    ) {
+        self.inner.update_last_applied(l)
+    }
+    fn last_applied(&self) -> LogId {
+        self.inner.last_applied()
+    }
+    fn persist_last_applied(
+        &self,
+        l: LogId,
+    ) -> R<()> {
+        self.inner.persist_last_applied(l)
+    }
+    fn update_last_snapshot_metadata(
+        &self,
+        m: &SnapshotMetadata,
+    ) -> R<()> {
+        self.inner.update_last_snapshot_metadata(m)
+    }
+    fn snapshot_metadata(&self) -> Option<SnapshotMetadata> {
+        self.inner.snapshot_metadata()
+    }
+    fn persist_last_snapshot_metadata(
+        &self,
+        m: &SnapshotMetadata,
+    ) -> R<()> {
+        self.inner.persist_last_snapshot_metadata(m)
+    }
+    async fn apply_snapshot_from_file(
+        &self,
+        metadata: &SnapshotMetadata,
+        snapshot_path: PathBuf,
+    ) -> R<()> {
+        self.ctl.apply_calls.fetch_add(1, Ordering::SeqCst);
+        self.ctl.note();
+        if self.ctl.crash_at.load(Ordering::SeqCst) == 1 {
+            self.ctl.hit.store(true, Ordering::SeqCst);
+            std::future::pending::<()>().await;
+        }
+        let r = self.inner.apply_snapshot_from_file(metadata, snapshot_path).await;
+        self.ctl.note();
+        if self.ctl.crash_at.load(Ordering::SeqCst) == 2 {
+            self.ctl.hit.store(true, Ordering::SeqCst);
+            std::future::pending::<()>().await;
+        }
+        r
+    }
+    async fn generate_snapshot_data(
+        &self,
+        d: PathBuf,
+        l: LogId,
+    ) -> R<Bytes> {
+        self.inner.generate_snapshot_data(d, l).await
+    }
+    fn save_hard_state(&self) -> R<()> {
+        self.inner.save_hard_state()
+    }
+    fn flush(&self) -> R<()> {
+        self.inner.flush()
+    }
+    async fn flush_async(&self) -> R<()> {
+        self.inner.flush_async().await
+    }
+    async fn reset(&self) -> R<()> {
+        self.inner.reset().await
+    }
+    fn scan_prefix(
+        &self,
+        p: &[u8],
+    ) -> R<ScanResult> {
+        self.inner.scan_prefix(p)
+    }
+}
+
+#[derive(Debug)]
+struct Tc<K: Kind>(PhantomData<K>);
+impl<K: Kind> TypeConfig for Tc<K> {
+    type SE = MemEngine;
+    type SM = Probe<K::S>;
+    type R = BufferedRaftLog<Self>;
+    type M = RaftMembership<Self>;
+    type TR = SimTransport<Self>;
+    type E = ElectionHandler<Self>;
+    type REP = ReplicationHandler<Self>;
+    type C = DefaultCommitHandler<Self>;
+    type SMH = DefaultStateMachineHandler<Self>;
+    type SNP = LogSizePolicy;
+    type PE = DefaultPurgeExecutor<Self>;
+}
+type Smh<K> = DefaultStateMachineHandler<Tc<K>>;
+
+fn snap_cfg(
+    dir: &Path,
+    chunk_size: usize,
+) -> SnapshotConfig {
+    let mut c = SnapshotConfig::default();
+    c.snapshots_dir = dir.to_path_buf();
+    c.retained_log_entries = 0;
+    c.chunk_size = chunk_size;
+    c.receive_chunk_timeout_in_sec = 1;
+    c.max_bandwidth_mbps = 0;
+    c
+}
+
+fn handler<K: Kind>(
+    node_id: u32,
+    sm: Arc<Probe<K::S>>,
+    cfg: SnapshotConfig,
+) -> Arc<Smh<K>> {
+    let policy = LogSizePolicy::new(
+        cfg.max_log_entries_before_snapshot,
+        cfg.snapshot_cool_down_since_last_check,
+    );
+    let la = sm.last_applied().index;
+    Arc::new(Smh::<K>::new(node_id, la, sm, cfg, policy, None, Arc::new(AtomicUsize::new(0))))
+}
+
+// ---------------------------------------------------------------------------------------------
+// Fixed data of a run: the three state-machine contents and the leader's snapshot files
+// ---------------------------------------------------------------------------------------------
+fn value(
+    tag: &str,
+    i: u64,
+) -> Bytes {
+    // incompressible-ish deterministic payload so that the archives are a few KB
+    let mut x = 0x9E3779B97F4A7C15u64 ^ (i.wrapping_mul(0x100000001B3)) ^ (tag.len() as u64) << 32;
+    for b in tag.bytes() {
+        x = x.rotate_left(7) ^ b as u64;
+    }
+    let mut s = String::with_capacity(700);
+    s.push_str(tag);
+    for _ in 0..40 {
+        x ^= x << 13;
+        x ^= x >> 7;
+        x ^= x << 17;
+        s.push_str(&format!("{x:016x}"));
+    }
+    Bytes::from(s)
+}
+
+/// (key, value) per log index; entry i of content `tag` at term `term`
+fn content(
+    tag: &str,
+    count: u64,
+    base: u64,
+) -> Vec<(Bytes, Bytes)> {
+    (1..=count).map(|i| (Bytes::from(format!("k{:02}", base + i)), value(tag, i))).collect()
+}
+
+async fn populate<S: StateMachine>(
+    sm: &S,
+    kv: &[(Bytes, Bytes)],
+    term: u64,
+) {
+    let entries: Vec<ApplyEntry> = kv
+        .iter()
+        .enumerate()
+        .map(|(i, (k, v))| ApplyEntry {
+            index: i as u64 + 1,
+            term,
+            command: Command::Insert {
+                key: k.clone(),
+                value: v.clone(),
+                ttl_secs: None,
+            },
+        })
+        .collect();
+    sm.apply_chunk(&entries).await.expect("populate");
+}
+
+struct SnapRef {
+    bytes: Vec<u8>,
+    kv: Vec<(Bytes, Bytes)>,
+    li: LogId,
+    /// chunks as produced by the real sender for n = 1..=4 (index n-1)
+    chunks: Vec<Vec<SnapshotChunk>>,
+}
+
+struct Fixture {
+    old_kv: Vec<(Bytes, Bytes)>,
+    old_li: LogId,
+    prev_bytes: Vec<u8>,
+    prev_name: String,
+    a: SnapRef,
+    b: SnapRef,
+    universe: Vec<Bytes>,
+}
+
+async fn make_snapshot<K: Kind>(
+    root: &Path,
+    tag: &str,
+    kv: Vec<(Bytes, Bytes)>,
+    term: u64,
+    max_chunks: usize,
+) -> (SnapRef, String) {
+    let dir = root.join(format!("leader-{tag}"));
+    std::fs::create_dir_all(dir.join("snaps")).unwrap();
+    let sm = K::open(&dir.join("sm")).await;
+    populate(&*sm, &kv, term).await;
+    let probe = Arc::new(Probe {
+        inner: sm,
+        ctl: Arc::new(ProbeCtl::default()),
+    });
+    let h = handler::<K>(1, probe.clone(), snap_cfg(&dir.join("snaps"), 1024));
+    let (meta, path) = h.create_snapshot().await.expect("leader create_snapshot");
+    let bytes = std::fs::read(&path).unwrap();
+    let li = meta.last_included.unwrap();
+    let mut chunks = vec![];
+    for n in 1..=max_chunks {
+        let cs = bytes.len().div_ceil(n);
+        let hn = handler::<K>(1, probe.clone(), snap_cfg(&dir.join("snaps"), cs));
+        let mut st = hn.load_snapshot_data(meta.clone()).await.expect("load_snapshot_data");
+        let mut v = vec![];
+        while let Some(c) = st.next().await {
+            v.push(c.expect("sender chunk"));
+        }
+        assert_eq!(v.len(), n, "sender produced {} chunks for n={}", v.len(), n);
+        chunks.push(v);
+    }
+    let name = path.file_name().unwrap().to_string_lossy().to_string();
+    (SnapRef {
+        bytes,
+        kv,
+        li,
+        chunks,
+    }, name)
+}
+
+async fn fixture<K: Kind>(
+    root: &Path,
+    max_chunks: usize,
+) -> Fixture {
+    let old_kv = vec![
+        (Bytes::from("k01"), value("old", 1)),
+        (Bytes::from("k02"), value("old", 2)),
+        (Bytes::from("k03"), value("old", 3)),
+    ];
+    let (prev, prev_name) = make_snapshot::<K>(root, "prev", old_kv.clone(), 1, 1).await;
+    let (a, an) = make_snapshot::<K>(root, "A", content("A", 5, 10), 2, max_chunks).await;
+    let (b, bn) = make_snapshot::<K>(root, "B", content("B", 7, 20), 2, max_chunks).await;
+    assert_eq!(prev_name, "snapshot-3-1.tar.gz");
+    assert_eq!(an, "snapshot-5-2.tar.gz");
+    assert_eq!(bn, "snapshot-7-2.tar.gz");
+    let universe = (0..40u32).map(|i| Bytes::from(format!("k{i:02}"))).collect();
+    Fixture {
+        old_kv,
+        old_li: prev.li,
+        prev_bytes: prev.bytes,
+        prev_name,
+        a,
+        b,
+        universe,
+    }
+}
+
+// ---------------------------------------------------------------------------------------------
+// Observation of the durable state
+// ---------------------------------------------------------------------------------------------
+struct Observer<K: Kind> {
+    fx: Arc<Fixture>,
+    snaps: PathBuf,
+    sm: Arc<Probe<K::S>>,
+    meta0: Option<LogId>,
+}
+
+impl<K: Kind> Observer<K> {
+    fn sm_class(&self) -> String {
+        let mut kv = vec![];
+        for k in &self.fx.universe {
+            if let Ok(Some(v)) = self.sm.get(k) {
+                kv.push((k.clone(), v));
+            }
+        }
+        let la = self.sm.last_applied();
+        let meta = self.sm.snapshot_metadata().and_then(|m| m.last_included);
+        let n = self.sm.len();
+        let is = |r: &[(Bytes, Bytes)]| kv.as_slice() == r && n == r.len();
+        // "state" = contents + last applied id; the snapshot metadata label is recorded separately
+        let _ = self.meta0;
+        if is(&self.fx.old_kv) && la == self.fx.old_li {
+            "old".into()
+        } else if is(&self.fx.a.kv) && la == self.fx.a.li {
+            "A".into()
+        } else if is(&self.fx.b.kv) && la == self.fx.b.li {
+            "B".into()
+        } else {
+            let kc = if is(&self.fx.old_kv) {
+                "old"
+            } else if is(&self.fx.a.kv) {
+                "A"
+            } else if is(&self.fx.b.kv) {
+                "B"
+            } else {
+                "mixed"
+            };
+            format!("other(kv={kc},len={n},applied={}.{},meta={:?})", la.index, la.term, meta.map(|m| (m.index, m.term)))
+        }
+    }
+
+    /// (durable state as the spec sees it, temp file present, unexpected directory entries)
+    fn observe(&self) -> (Value, bool, Vec<String>) {
+        let mut files = BTreeMap::new();
+        for f in ["prev", "A", "B"] {
+            files.insert(f.to_string(), "absent".to_string());
+        }
+        let mut tmp = false;
+        let mut extra = vec![];
+        if let Ok(rd) = std::fs::read_dir(&self.snaps) {
+            for e in rd.flatten() {
+                let name = e.file_name().to_string_lossy().to_string();
+                let (logical, reference): (&str, &[u8]) = if name == self.fx.prev_name {
+                    ("prev", &self.fx.prev_bytes)
+                } else if name == "snapshot-5-2.tar.gz" {
+                    ("A", &self.fx.a.bytes)
+                } else if name == "snapshot-7-2.tar.gz" {
+                    ("B", &self.fx.b.bytes)
+                } else if name == "temp-snapshot.part.tar.gz" {
+                    tmp = true;
+                    continue;
+                } else {
+                    extra.push(name);
+                    continue;
+                };
+                let class = match std::fs::read(e.path()) {
+                    Ok(b) if b == reference => "ok",
+                    _ => "bad",
+                };
+                files.insert(logical.to_string(), class.to_string());
+            }
+        }
+        extra.sort();
+        (json!({"files": files, "sm": self.sm_class()}), tmp, extra)
+    }
+}
+
+enum Outcome {
+    Done(R<()>),
+    /// crash point of the probe reached / poll-boundary cut reached
+    Crashed,
+    /// the code under test panicked (recorded and judged like any other outcome)
+    Panicked(String),
+}
+
+/// Polls the receiver future; before every poll and after completion the durable state is
+/// observed (each poll boundary is a point where the process could die).
+struct Observed<K: Kind, F: Future<Output = R<()>>> {
+    inner: Option<Pin<Box<F>>>,
+    obs: Arc<Observer<K>>,
+    ctl: Arc<ProbeCtl>,
+    profile: Arc<Mutex<Vec<Value>>>,
+    polls: Arc<AtomicUsize>,
+    cut_at: Option<usize>,
+}
+
+impl<K: Kind, F: Future<Output = R<()>>> Observed<K, F> {
+    fn note(&self) {
+        let (d, _, _) = self.obs.observe();
+        let mut p = self.profile.lock().unwrap();
+        if p.last() != Some(&d) {
+            p.push(d);
+        }
+    }
+    /// process crash: the future is abandoned without running any destructor
+    fn abandon(&mut self) {
+        if let Some(f) = self.inner.take() {
+            std::mem::forget(f);
+        }
+    }
+}
+
+impl<K: Kind, F: Future<Output = R<()>>> Future for Observed<K, F> {
+    type Output = Outcome;
+    fn poll(
+        self: Pin<&mut Self>,
+        cx: &mut Context<'_>,
+    ) -> Poll<Outcome> {
+        let this = unsafe { self.get_unchecked_mut() };
+        if this.inner.is_none() {
+            return Poll::Ready(Outcome::Crashed);
+        }
+        this.note();
+        let k = this.polls.fetch_add(1, Ordering::SeqCst);
+        if this.cut_at == Some(k) {
+            this.abandon();
+            return Poll::Ready(Outcome::Crashed);
+        }
+        let inner = this.inner.as_mut().unwrap();
+        let r = match std::panic::catch_unwind(std::panic::AssertUnwindSafe(|| inner.as_mut().poll(cx))) {
+            Ok(r) => r,
+            Err(p) => {
+                let msg = p
+                    .downcast_ref::<String>()
+                    .cloned()
+                    .or_else(|| p.downcast_ref::<&str>().map(|s| s.to_string()))
+                    .unwrap_or_else(|| "panic".into());
+                this.abandon();
+                this.note();
+                return Poll::Ready(Outcome::Panicked(msg));
+            }
+        };
+        match r {
+            Poll::Ready(r) => {
+                this.inner = None;
+                this.note();
+                Poll::Ready(Outcome::Done(r))
+            }
+            Poll::Pending => {
+                if this.ctl.hit.load(Ordering::SeqCst) {
+                    this.note();
+                    this.abandon();
+                    return Poll::Ready(Outcome::Crashed);
+                }
+                Poll::Pending
+            }
+        }
+    }
+}
+
+// ---------------------------------------------------------------------------------------------
+// One behaviour
+// ---------------------------------------------------------------------------------------------
+fn build_chunk(
+    fx: &Fixture,
+    it: &Value,
+    variant: u64,
+) -> SnapshotChunk {
+    let snap = it["snap"].as_str().unwrap();
+    let sr = if snap == "A" { &fx.a } else { &fx.b };
+    let total = it["total"].as_u64().unwrap() as usize;
+    let id = it["id"].as_u64().unwrap() as usize;
+    let mut c = sr.chunks[total - 1][id].clone();
+    assert_eq!(c.seq as u64, it["seq"].as_u64().unwrap());
+    assert_eq!(c.total_chunks as usize, total);
+    // the real sender labels chunks with (last_included.term, its node id) = (2, 1); the spec's
+    // other leader / term is 3
+    c.leader_term = it["term"].as_u64().unwrap();
+    c.leader_id = it["leader"].as_u64().unwrap() as u32;
+    if !it["meta"].as_bool().unwrap() {
+        c.metadata = None;
+    }
+    if !it["ok"].as_bool().unwrap() {
+        // corruption in transit: either a payload byte or a checksum byte flips
+        if variant % 2 == 0 {
+            let mut d = c.data.to_vec();
+            let p = (variant as usize / 2) % d.len();
+            d[p] ^= 0x40;
+            c.data = Bytes::from(d);
+        } else {
+            let mut d = c.chunk_checksum.to_vec();
+            let p = (variant as usize / 2) % d.len();
+            d[p] ^= 0x01;
+            c.chunk_checksum = Bytes::from(d);
+        }
+    }
+    c
+}
+
+fn status_name(s: i32) -> &'static str {
+    match ChunkStatus::try_from(s) {
+        Ok(ChunkStatus::Accepted) => "Accepted",
+        Ok(ChunkStatus::ChecksumMismatch) => "ChecksumMismatch",
+        Ok(ChunkStatus::OutOfOrder) => "OutOfOrder",
+        Ok(ChunkStatus::Failed) => "Failed",
+        Ok(ChunkStatus::Requested) => "Requested",
+        _ => "Unspecified",
+    }
+}
+
+/// completes when every task is blocked and no blocking file operation is in flight
+/// (paused clock: the timer fires only when the runtime is otherwise idle)
+async fn settle() {
+    tokio::time::sleep(Duration::from_millis(1)).await;
+}
+
+async fn run_behaviour<K: Kind>(
+    fx: &Arc<Fixture>,
+    scratch: &Path,
+    beh: &Value,
+    serial: u64,
+) -> Value {
+    let dir = scratch.join(format!("r{serial}"));
+    let snaps = dir.join("snaps");
+    let smdir = dir.join("sm");
+    std::fs::create_dir_all(&snaps).unwrap();
+    std::fs::write(snaps.join(&fx.prev_name), &fx.prev_bytes).unwrap();
+    let mut sm = K::open(&smdir).await;
+    populate(&*sm, &fx.old_kv, fx.old_li.term).await;
+    // the receiver's previous state is durable before the transfer starts
+    sm.save_hard_state().expect("persist previous state");
+    let meta0 = sm.snapshot_metadata().and_then(|m| m.last_included);
+    let mut ctl = Arc::new(ProbeCtl::default());
+    let mut probe = Arc::new(Probe {
+        inner: sm.clone(),
+        ctl: ctl.clone(),
+    });
+    let cfg = snap_cfg(&snaps, 1024);
+    let mut h = handler::<K>(2, probe.clone(), cfg.clone());
+    let mut out_attempts = vec![];
+
+    for (ai, att) in beh["attempts"].as_array().unwrap().iter().enumerate() {
+        let items: Vec<Value> = att["items"].as_array().unwrap().clone();
+        let crash = att["crash"].as_array().cloned().unwrap_or_default();
+        let crash_pc = crash.first().and_then(|v| v.as_str()).unwrap_or("").to_string();
+        let crash_k = crash.get(1).and_then(|v| v.as_u64()).unwrap_or(0) as usize;
+        let cut_at = att.get("cut").and_then(|v| v.as_u64()).map(|v| v as usize);
+        ctl.hit.store(false, Ordering::SeqCst);
+        ctl.crash_at.store(
+            match crash_pc.as_str() {
+                "apply" => 1,
+                "ret" => 2,
+                _ => 0,
+            },
+            Ordering::SeqCst,
+        );
+        let obs = Arc::new(Observer::<K> {
+            fx: fx.clone(),
+            snaps: snaps.clone(),
+            sm: probe.clone(),
+            meta0,
+        });
+        let (tx, rx) = mpsc::channel::<SnapshotChunk>(32);
+        let (ack_tx, mut ack_rx) = mpsc::channel::<SnapshotAck>(64);
+        let profile = Arc::new(Mutex::new(vec![]));
+        let polls = Arc::new(AtomicUsize::new(0));
+        {
+            let (o, p) = (obs.clone(), profile.clone());
+            *ctl.note.lock().unwrap() = Some(Arc::new(move || {
+                let (d, _, _) = o.observe();
+                let mut g = p.lock().unwrap();
+                if g.last() != Some(&d) {
+                    g.push(d);
+                }
+            }));
+        }
+        let hh = h.clone();
+        let cfg2 = cfg.clone();
+        let fut = async move { hh.apply_snapshot_stream_from_leader(2, rx, ack_tx, &cfg2).await };
+        let mut observed = Box::pin(Observed::<K, _> {
+            inner: Some(Box::pin(fut)),
+            obs: obs.clone(),
+            ctl: ctl.clone(),
+            profile: profile.clone(),
+            polls: polls.clone(),
+            cut_at,
+        });
+        let lockstep = crash_pc == "recv";
+        let fxc = fx.clone();
+        let variant = serial * 7 + ai as u64;
+        let driver = async move {
+            let limit = if lockstep { crash_k } else { items.len() };
+            if lockstep {
+                settle().await; // receiver has opened its temp file and waits for the first item
+            }
+            for (i, it) in items.iter().take(limit).enumerate() {
+                if it["k"] == "gap" {
+                    tokio::time::sleep(Duration::from_millis(1500)).await;
+                } else {
+                    let c = build_chunk(&fxc, it, variant + i as u64);
+                    if tx.send(c).await.is_err() {
+                        break;
+                    }
+                }
+                if lockstep {
+                    settle().await;
+                }
+            }
+            if lockstep {
+                // the process dies here; the sender side of the channel stays open
+                std::mem::forget(tx);
+            } else {
+                drop(tx);
+                std::future::pending::<()>().await;
+            }
+        };
+        tokio::pin!(driver);
+        let outcome = tokio::select! {
+            biased;
+            o = &mut observed => o,
+            _ = &mut driver => {
+                // lock-step crash point reached while the receiver waits for the next item
+                let o = unsafe { observed.as_mut().get_unchecked_mut() };
+                if o.inner.is_some() { o.note(); o.abandon(); }
+                Outcome::Crashed
+            }
+        };
+        let mut acks = vec![];
+        while let Ok(a) = ack_rx.try_recv() {
+            acks.push(json!({"seq": a.seq, "status": status_name(a.status), "next": a.next_requested}));
+        }
+        let (after, tmp, extra) = obs.observe();
+        let (result, err) = match &outcome {
+            Outcome::Done(Ok(())) => ("ok".to_string(), String::new()),
+            Outcome::Done(Err(e)) => ("err".to_string(), format!("{e} || {e:?}")),
+            Outcome::Crashed => ("crashed".to_string(), String::new()),
+            Outcome::Panicked(m) => ("panic".to_string(), m.clone()),
+        };
+        out_attempts.push(json!({
+            "result": result, "err": err, "acks": acks, "after": after, "tmp": tmp, "extra": extra,
+            "profile": profile.lock().unwrap().clone(), "polls": polls.load(Ordering::SeqCst),
+            "apply_calls": ctl.apply_calls.load(Ordering::SeqCst),
+            "smh_last_applied": h.last_applied(),
+            "sm_meta": probe.snapshot_metadata().and_then(|m| m.last_included).map(|l| (l.index, l.term)),
+        }));
+        if matches!(outcome, Outcome::Crashed | Outcome::Panicked(_)) {
+            // restart: new state machine instance from what is durable, new handler
+            settle().await;
+            sm = K::reopen(&sm, &smdir).await;
+            ctl = Arc::new(ProbeCtl::default());
+            probe = Arc::new(Probe {
+                inner: sm.clone(),
+                ctl: ctl.clone(),
+            });
+            h = handler::<K>(2, probe.clone(), cfg.clone());
+            // what the restarted process finds (recovery of the state machine itself is not C17's subject)
+            let o2 = Observer::<K> {
+                fx: fx.clone(),
+                snaps: snaps.clone(),
+                sm: probe.clone(),
+                meta0,
+            };
+            let n = out_attempts.len();
+            out_attempts[n - 1]["after_restart"] = o2.observe().0;
+        }
+    }
+    let _ = std::fs::remove_dir_all(&dir);
+    json!({"id": beh["id"], "sm": K::NAME, "attempts": out_attempts})
+}
+
+async fn run_all<K: Kind>(
+    cases: &str,
+    out: &str,
+    scratch: &Path,
+) {
+    let root = scratch.join(format!("fx-{}", K::NAME));
+    let _ = std::fs::remove_dir_all(&root);
+    std::fs::create_dir_all(&root).unwrap();
+    let fx = Arc::new(fixture::<K>(&root, 4).await);
+    let mut w = NdjsonWriter::create(out);
+    w.write(&json!({"fixture": {"sm": K::NAME, "A_bytes": fx.a.bytes.len(), "B_bytes": fx.b.bytes.len(),
+        "prev_bytes": fx.prev_bytes.len(),
+        "A_chunk_sizes": fx.a.chunks.iter().map(|v| v.iter().map(|c| c.data.len()).collect::<Vec<_>>()).collect::<Vec<_>>(),
+        "sender_term": fx.a.chunks[0][0].leader_term, "sender_id": fx.a.chunks[0][0].leader_id}}));
+    let text = std::fs::read_to_string(cases).expect("read cases");
+    let mut serial = 0u64;
+    for line in text.lines() {
+        if line.trim().is_empty() {
+            continue;
+        }
+        let beh: Value = serde_json::from_str(line).expect("case json");
+        serial += 1;
+        if beh.get("sweep").and_then(|v| v.as_bool()).unwrap_or(false) {
+            // cut the first attempt at every poll boundary in turn
+            let mut j = 0usize;
+            loop {
+                let mut b = beh.clone();
+                b["attempts"][0]["cut"] = json!(j);
+                b["id"] = json!(format!("{}#cut{}", beh["id"].as_str().unwrap_or("?"), j));
+                let r = run_behaviour::<K>(&fx, scratch, &b, serial * 1000 + j as u64).await;
+                let finished = r["attempts"][0]["result"] != "crashed";
+                w.write(&r);
+                if finished || j > 400 {
+                    break;
+                }
+                j += 1;
+            }
+        } else {
+            let r = run_behaviour::<K>(&fx, scratch, &beh, serial).await;
+            w.write(&r);
+        }
+    }
+    w.finish();
+    let _ = std::fs::remove_dir_all(&root);
+}
+
+fn arg(
+    args: &[String],
+    name: &str,
+) -> Option<String> {
+    args.iter().position(|a| a == name).and_then(|i| args.get(i + 1).cloned())
+}
+
+fn main() {
+    let args: Vec<String> = std::env::args().collect();
+    if args.len() < 2 || args[1] != "run" {
+        eprintln!("usage: dv-snapxfer run --cases <ndjson> --out <ndjson> --scratch <dir> [--sm mem|file]");
+        std::process::exit(2);
+    }
+    let cases = arg(&args, "--cases").expect("--cases");
+    let out = arg(&args, "--out").expect("--out");
+    let scratch = PathBuf::from(arg(&args, "--scratch").expect("--scratch"));
+    std::fs::create_dir_all(&scratch).unwrap();
+    let kind = arg(&args, "--sm").unwrap_or_else(|| "mem".into());
+    // a panic in the code under test is data: it is caught per process and reported by the driver
+    run_paused(async {
+        match kind.as_str() {
+            "mem" => run_all::<MemKind>(&cases, &out, &scratch).await,
+            "file" => run_all::<FileKind>(&cases, &out, &scratch).await,
+            o => panic!("unknown --sm {o}"),
+        }
+    });
+}
